@@ -83,6 +83,9 @@ pub struct History
     pub structured: bool,
     pub initial_files: Vec<u8>, // number of statements per initial file
     pub ops: Vec<HistOp>,
+    /// a lock file that exists before the first run (consistent: the tree has no IDs yet)
+    #[serde(default)]
+    pub initial_lock: Option<u32>,
 }
 
 fn plan() -> BoxedStrategy<Plan>
@@ -116,11 +119,23 @@ fn hist_op() -> BoxedStrategy<HistOp>
 
 pub fn strategy() -> BoxedStrategy<History>
 {
-    (any::<bool>(), vec(0u8..4, 1..=4), vec(hist_op(), 4..=25))
-        .prop_map(|(structured, initial_files, ops)| History {
+    (
+        any::<bool>(),
+        vec(0u8..4, 1..=4),
+        vec(hist_op(), 4..=25),
+        prop_oneof![
+            6 => Just(None),
+            1 => Just(Some(1u32)),
+            1 => (2u32..5000).prop_map(Some),
+            1 => (0u32..12).prop_map(|j| Some(u32::MAX - j)),
+            1 => proptest::sample::select(&[255u32, 256, 65535, 65536, 999_999_999, 2_147_483_647][..]).prop_map(Some),
+        ],
+    )
+        .prop_map(|(structured, initial_files, ops, initial_lock)| History {
             structured,
             initial_files,
             ops,
+            initial_lock,
         })
         .boxed()
 }
@@ -262,6 +277,10 @@ pub fn check(h: &History) -> CaseOutcome
     let cfg = ConfigSpec::simple(h.structured, if h.initial_files.len() % 2 == 0 { Some(true) } else { None });
     std::fs::write(sb.proj().join("Breadlog.yaml"), cfg.yaml()).unwrap();
     std::fs::create_dir_all(sb.proj().join("src")).unwrap();
+    if let Some(v) = h.initial_lock
+    {
+        std::fs::write(sb.proj().join("Breadlog.lock"), crate::gen::LockSpec::Valid(v).content().unwrap()).unwrap();
+    }
     let mut w = World {
         sb,
         next_uid: 1,
@@ -624,7 +643,7 @@ pub fn run(env: &Env, rec: &Recorder) -> (String, Vec<&'static str>)
 {
     pbt_opts(env, rec, "histories", env.cases(1500, 30000), 300, &strategy, &check);
     (
-        "histories of 4-25 operations over a project of 1-4+ files with the lock in use and never touched by the developer: add statement / delete statement (biased to the highest ID) / move a statement with its ID to another file / add file / delete file / save the configuration file again (newer timestamp) / --check / edit run carrying a fault plan (none 50 %, one or two injected I/O failures, SIGTERM/SIGINT, SIGKILL, or TMPDIR really on another filesystem, also combined with a fault plan; positioned by a fraction mapped onto the operation count of a recording run on a copy). Ghost map ID -> statement identity (unique marker in each message); after every run the harness's own scanner reads the tree: an ID seen with a different statement than before is a reuse; after every edit run, however it ended, a parsable lock must be ahead of every ID ever written; --check must change nothing. Non-trivial = distinct history where a faulted/interrupted edit that inserted IDs, or the deletion of the statement with the highest ID, is followed by a later edit that inserts IDs".to_string(),
+        "histories of 4-25 operations over a project of 1-4+ files with the lock in use (absent at first, or pre-existing with a small, digit-boundary or near-u32::MAX value) and never touched by the developer: add statement / delete statement (biased to the highest ID) / move a statement with its ID to another file / add file / delete file / save the configuration file again (newer timestamp) / --check / edit run carrying a fault plan (none 50 %, one or two injected I/O failures, SIGTERM/SIGINT, SIGKILL, or TMPDIR really on another filesystem, also combined with a fault plan; positioned by a fraction mapped onto the operation count of a recording run on a copy). Ghost map ID -> statement identity (unique marker in each message); after every run the harness's own scanner reads the tree: an ID seen with a different statement than before is a reuse; after every edit run, however it ended, a parsable lock must be ahead of every ID ever written; --check must change nothing. Non-trivial = distinct history where a faulted/interrupted edit that inserted IDs, or the deletion of the statement with the highest ID, is followed by a later edit that inserts IDs".to_string(),
         vec!["developer copy/paste of a statement together with its ID is not generated (duplicates not caused by the tool)", "the developer never edits or deletes Breadlog.lock", "once any ID has been written the lock file must exist, parse and be ahead of every ID ever written (the tool itself creates it before it modifies the first file)"],
     )
 }
